@@ -128,7 +128,8 @@ def _worker(job):
 
 def _reproduced(v, res):
     if v["kind"] == "crash":
-        return res["status"] == "crash" and res.get("exception") == v["info"].get("exception")
+        # same exception class, or the real one specialises the modelled one (numpy raises subclasses of TypeError/ValueError)
+        return res["status"] == "crash" and (res.get("exception") == v["info"].get("exception") or v["info"].get("exception") in res.get("exception_mro", []))
     if v["clause"] == "index-in-range":
         return res["status"] == "crash" and res.get("exception") == "IndexError" or any(f["clause"] == v["clause"] for f in res["failures"])
     return any(f["clause"] == v["clause"] for f in res["failures"])
@@ -160,6 +161,7 @@ def real_run(hname, scen, model, repo):
     except (Exception, SystemExit) as exc:
         res["status"] = "crash"
         res["exception"] = type(exc).__name__
+        res["exception_mro"] = [c.__name__ for c in type(exc).__mro__ if c.__name__ not in ("Exception", "BaseException", "object")]
         res["message"] = str(exc)[:300]
         res["traceback"] = traceback.format_exc(limit=-5)[-1200:]
     finally:
